@@ -25,7 +25,7 @@ pub fn run_check(replay: Option<Value>) -> i32 {
     let only = replay.as_ref().and_then(|c| c["key"].as_str().map(|s| s.to_string()));
     let thorough = is_thorough();
     let probs = problems();
-    let tols: Vec<f64> = if thorough { vec![1e-2, 1e-3, 1e-4, 1e-5, 1e-6, 1e-7, 1e-8, 1e-9, 1e-10] } else { vec![1e-3, 1e-6, 1e-9] };
+    let tols: Vec<f64> = if thorough { vec![1e-2, 1e-3, 1e-4, 1e-5, 1e-6, 1e-7, 1e-8, 1e-9, 1e-10] } else { vec![1e-3, 1e-6, 1e-9, 1e-2] };
     let fss = ["none", "small(span/200)", "large(span/2)"];
     let mss = ["none", "small(span/23)"];
     let dims = vec![
